@@ -247,7 +247,7 @@ impl TopP {
     pub fn new(cumulative_prob: f32) -> Self {
         Self {
             cumulative_prob,
-            normalize: false,
+            normalize: true,
         }
     }
 
